@@ -59,6 +59,34 @@ REWRITES = [
     ('amr_kitchen/utils.py',
      "    header_indices = (f\"((\" + ','.join([str(s) for s in start]) + ')'\n                      f\" (\" + ','.join([str(s) for s in stop]) + \")\"\n                      f\" (\" + ','.join([\"0\" for _ in stop]) + f\")) {nfields}\\n\")",
      "    header_indices = '(({}) ({}) ({})) {}\\n'.format(','.join(str(s) for s in start), ','.join(str(s) for s in stop),\n                                                  ','.join('0' for _ in stop), nfields)"),
+    # taste: absolute seek instead of a relative one; the file size from a second seek
+    ('amr_kitchen/taste/taste.py',
+     "            # Skip to the next header\n            bf.seek(nbytes, 1)",
+     "            # Skip to the next header\n            bf.seek(bf.tell() + nbytes)"),
+    # taste: elementwise comparison instead of array_equal
+    ('amr_kitchen/taste/taste.py',
+     "            if not np.array_equal(idx, hidx):",
+     "            if np.any(np.asarray(idx) != np.asarray(hidx)):"),
+    # menu: f-string formatting, extrema through the functions instead of the methods
+    ('amr_kitchen/menu/menu.py',
+     "                minimum = np.min([self.cells[lv][\"mins\"][field].min() for lv in range(self.limit_level + 1)]) \n                maximum = np.max([self.cells[lv][\"maxs\"][field].max() for lv in range(self.limit_level + 1)])\n            minimum = str(\"{:.3}\".format(minimum))\n            maximum = str(\"{:.3}\".format(maximum))",
+     "                minimum = np.min([np.min(self.cells[lv][\"mins\"][field]) for lv in range(self.limit_level + 1)])\n                maximum = np.max([np.max(self.cells[lv][\"maxs\"][field]) for lv in range(self.limit_level + 1)])\n            minimum = f\"{minimum:.3}\"\n            maximum = format(maximum, '.3')"),
+    # mandoline blades (3D): one absolute seek past the header instead of a relative one
+    ('amr_kitchen/mandoline/blades.py',
+     "                f.seek(byte_size*8*fidx, 1)\n                # Could be optimized by reading contiguous fields\n                # At once especially if all the data is requested\n                # Read the data\n                arr = np.fromfile(f, \"float64\", byte_size)",
+     "                f.seek(f.tell() + 8*fidx*byte_size)\n                # Could be optimized by reading contiguous fields\n                # At once especially if all the data is requested\n                # Read the data\n                arr = np.fromfile(f, dtype=\"float64\", count=byte_size)"),
+    # chk2plt: out-of-place division by the species sum with keepdims
+    ('amr_kitchen/chk2plt/chk2plt.py',
+     "                    Y_sum = np.sum(data[..., Y_start:Y_end], axis=-1)\n                    data[..., Y_start:Y_end] /= Y_sum[..., np.newaxis]",
+     "                    Y_sum = data[..., Y_start:Y_end].sum(axis=-1, keepdims=True)\n                    data[..., Y_start:Y_end] = data[..., Y_start:Y_end] / Y_sum"),
+    # chef: min / max through the methods, ravel instead of flatten
+    ('amr_kitchen/chef/chef.py',
+     "                min_values = np.min(alldata, axis=(0, 1, 2))\n                max_values = np.max(alldata, axis=(0, 1, 2))\n                mins.append(min_values)\n                maxs.append(max_values)\n                bfw.write(alldata.flatten(order=\"F\").tobytes())\n\n    return offsets, np.array(mins), np.array(maxs)\n\nclass Chef",
+     "                mins.append(alldata.min(axis=(0, 1, 2)))\n                maxs.append(alldata.max(axis=(0, 1, 2)))\n                bfw.write(alldata.ravel(order=\"F\").tobytes())\n\n    return offsets, np.array(mins), np.array(maxs)\n\nclass Chef"),
+    # pestle (masked worker): np.where on the mask instead of boolean indexing, commuted product
+    ('amr_kitchen/pestle/pestle.py',
+     "            return args[\"dV\"] * np.sum(data[args[\"covering_mask\"]])",
+     "            return np.sum(data[np.nonzero(args[\"covering_mask\"])]) * args[\"dV\"]"),
 ]
 
 
